@@ -194,6 +194,10 @@ example : Spec.Serpent.enc [0x80, 0, 0, 0, 0, 0, 0, 0, 0, 0, 0, 0, 0, 0, 0, 0, 0
       [0, 0, 0, 0, 0, 0, 0, 0, 0, 0, 0, 0, 0, 0, 0, 0]
     = some [0xA2, 0x23, 0xAA, 0x12, 0x88, 0x46, 0x3C, 0x0E, 0x2B, 0xE3, 0x8E, 0xBD, 0x82, 0x56, 0x16, 0xC0] := by
   decide +kernel
+/-- NESSIE Serpent-128 set 1 vector 0: a 16-byte key goes through the 1-then-zeros padding -/
+example : Spec.Serpent.enc [0x80, 0, 0, 0, 0, 0, 0, 0, 0, 0, 0, 0, 0, 0, 0, 0] [0, 0, 0, 0, 0, 0, 0, 0, 0, 0, 0, 0, 0, 0, 0, 0]
+    = some [0x26, 0x4E, 0x54, 0x81, 0xEF, 0xF4, 0x2A, 0x46, 0x06, 0xAB, 0xDA, 0x06, 0xC0, 0xBF, 0xDA, 0x3D] := by
+  decide +kernel
 example : IsBytes [1, 2, 3, 4, 5] ∧ [1, 2, 3, 4, 5].length ≤ 32 ∧ (⟨0x0504030201, 40⟩ : Bits).WF := by decide
 example : ∃ e, Model.Serpent.init ⟨1, 257⟩ = .error e := size_rejected_key _ (by decide)
 
